@@ -105,38 +105,7 @@ func checkC06(c *Ctx) Meta {
 			// derivation uses the counter value and records it
 			checkIndexRecording(c, f, "C06-RMW", "nextAddresses")
 		}
-		// persisted under the address's own (branch,index)
-		puts := callsIn(f, pkgKeystore+".putEncryptedPubKey")
-		key := "nextAddresses:key-persisted-under-own-path"
-		ok := len(puts) == 1
-		if ok {
-			a := puts[0].Call.Args
-			// branch, index and key all come from the same element `info`
-			var elems []ssa.Value
-			for v := range backSlice(a[3]).vals {
-				if ld, isL := v.(*ssa.UnOp); isL {
-					if _, isIdx := ld.X.(*ssa.IndexAddr); isIdx {
-						elems = append(elems, ld)
-					}
-				}
-			}
-			same := false
-			for _, e := range elems {
-				if backSlice(a[1]).has(e) && backSlice(a[2]).has(e) {
-					same = true
-				}
-			}
-			_, fb, _, okb := fieldOfValue(strip(a[1]))
-			_, fi, _, oki := fieldOfValue(strip(a[2]))
-			exact := okb && oki && fb == "branch" && fi == "index"
-			ok = same && exact && backSlice(a[1]).hasField(pkgKeystore+".unlockDeriveInfo", "branch") && backSlice(a[2]).hasField(pkgKeystore+".unlockDeriveInfo", "index") &&
-				backSlice(a[3]).hasField(tManagedAddr, "pubKey")
-		}
-		if ok {
-			c.OK("C06-RMW", key, c.Pos(puts[0].Pos()), "putEncryptedPubKey(info.branch, info.index, Encrypt(info.managedAddr.pubKey)) of one element")
-		} else {
-			c.Bad("C06-RMW", key, c.Pos(f.Pos()), "a public key is persisted under a (branch, index) that is not its own")
-		}
+		checkPersistOwnPath(c, f, "C06-RMW")
 	}
 	if f := c.MustFn("C06-ORDINAL", "poc/wallet/keystore", "(*KeystoreManagerForPoC).GenerateNewPublicKey"); f != nil {
 		// returned (pubkey, index) derive from the same managed address, which comes from nextAddresses(false, 1)
@@ -436,11 +405,45 @@ func affineEqualModuloLoopStep(f *ssa.Function, e1, e2 affineExpr) bool {
 
 func checkC05(c *Ctx) Meta {
 	c.Rule("C05-LOOKUP", "SignHash/SignMessage look the signing key up under the address derived from the requested public key and sign the caller's digest (the hash argument, or HashH of the message)", 2)
-	c.Rule("C05-BIND", "the private key cached for an address is re-derived from that address's own (branch, index): the external test selects the external branch key; the recorded path of a new address is the path its key was derived with", 3)
+	c.Rule("C05-BIND", "the private key cached for an address is re-derived from that address's own (branch, index): the external test selects the external branch key; the recorded path of a new address is the path its key was derived with; every entry is re-derived at unlock; a new key is persisted under its own (branch, index)", 5)
 	c.Rule("C05-GATE", "signing happens only while unlocked and only with a non-nil private key; an unknown key fails before signing", 3)
-	c.Rule("C05-LOCKSTATE", "the lock state is one state for the whole wallet: keystores are created/imported only under the passphrase the existing keystores accept, so a failed Unlock cannot leave some keystores signing while the wallet reports locked", 2)
+	c.Rule("C05-LOCKSTATE", "the lock state is one state for the whole wallet: keystores are created/imported only under the passphrase the existing keystores accept, so a failed Unlock cannot leave some keystores signing while the wallet reports locked; Unlock tries every keystore with the caller's passphrase and marks the manager unlocked only if none failed", 3)
 	checkSamePassphraseGates(c, "C05-LOCKSTATE")
 	c.Rule("C05-KEEPER", "the keeper signs with the public key of the workspace looked up by the requested space id", 1)
+	c.Rule("C05-ERASE", "locking leaves no usable key behind: the eraser zeroes every private-hierarchy field any function fills and drops the pointers other code tests for nil (the C03 eraser rule, here as the premise of 'requests while locked fail' and of re-derivation after the next unlock)", 7)
+	c.aliasFrom, c.aliasTo = "C03-ERASE", "C05-ERASE"
+	checkEraser(c)
+	c.aliasFrom, c.aliasTo = "", ""
+	checkUnlockAllOrNothing(c, "C05-LOCKSTATE")
+	if f := c.Fn("poc/wallet/keystore", "(*AddrManager).nextAddresses"); f != nil {
+		checkPersistOwnPath(c, f, "C05-BIND")
+	}
+	if f := c.MustFn("C05-BIND", "poc/wallet/keystore", "(*AddrManager).updatePrivKeys"); f != nil {
+		// every entry is re-derived at unlock: the loop cannot come back to its head without having stored privKey
+		key := "updatePrivKeys:every-entry-rederived"
+		var st ssa.Instruction
+		for _, a := range fieldAccesses(f) {
+			if a.Kind == "store" && a.Type == tManagedAddr && a.Field == "privKey" {
+				st = a.In
+			}
+		}
+		var next *ssa.Next
+		allInstrs(f, func(in ssa.Instruction) {
+			if nx, ok := in.(*ssa.Next); ok {
+				if rg, isR := nx.Iter.(*ssa.Range); isR && backSlice(rg.X).hasField(tAddrMgr, "addrs") {
+					next = nx
+				}
+			}
+		})
+		switch {
+		case st == nil || next == nil:
+			c.Bad("C05-BIND", key, c.Pos(f.Pos()), "reason=anchor-missing: the loop over a.addrs storing privKey")
+		case reach(f, next, nil, func(in ssa.Instruction) bool { return in == st })(next):
+			c.Bad("C05-BIND", key, c.Pos(next.Pos()), "an entry can be skipped at unlock (the loop continues without storing its private key): it keeps whatever key object it had — after a lock/unlock cycle that is a zeroed key, and signatures made with it do not verify")
+		default:
+			c.OK("C05-BIND", key, c.Pos(st.Pos()), "every iteration that continues has stored the entry's re-derived key")
+		}
+	}
 	c.Rule("C05-INDEX", "the address index is keyed by the entry's own address: every insertion into AddrManager.addrs (issuance, reload) uses the address of the very entry inserted; getAddrManager returns the manager in whose index the requested address was found; the address and the public key of an entry are made from one key", 4)
 	checkAddrIndex(c)
 	li := keystoreLocksets(c)
@@ -815,5 +818,42 @@ func checkAddrIndex(c *Ctx) {
 		} else {
 			c.Bad(rule, key, c.Pos(f.Pos()), "the address of a managed address is not derived from the public key stored in it")
 		}
+	}
+}
+
+// checkPersistOwnPath: each new public key is persisted under the (branch, index) of the very address
+// it belongs to (shared by C06-RMW and C05-BIND).
+func checkPersistOwnPath(c *Ctx, f *ssa.Function, rule string) {
+	// persisted under the address's own (branch,index)
+	puts := callsIn(f, pkgKeystore+".putEncryptedPubKey")
+	key := "nextAddresses:key-persisted-under-own-path"
+	ok := len(puts) == 1
+	if ok {
+		a := puts[0].Call.Args
+		// branch, index and key all come from the same element `info`
+		var elems []ssa.Value
+		for v := range backSlice(a[3]).vals {
+			if ld, isL := v.(*ssa.UnOp); isL {
+				if _, isIdx := ld.X.(*ssa.IndexAddr); isIdx {
+					elems = append(elems, ld)
+				}
+			}
+		}
+		same := false
+		for _, e := range elems {
+			if backSlice(a[1]).has(e) && backSlice(a[2]).has(e) {
+				same = true
+			}
+		}
+		_, fb, _, okb := fieldOfValue(strip(a[1]))
+		_, fi, _, oki := fieldOfValue(strip(a[2]))
+		exact := okb && oki && fb == "branch" && fi == "index"
+		ok = same && exact && backSlice(a[1]).hasField(pkgKeystore+".unlockDeriveInfo", "branch") && backSlice(a[2]).hasField(pkgKeystore+".unlockDeriveInfo", "index") &&
+			backSlice(a[3]).hasField(tManagedAddr, "pubKey")
+	}
+	if ok {
+		c.OK(rule, key, c.Pos(puts[0].Pos()), "putEncryptedPubKey(info.branch, info.index, Encrypt(info.managedAddr.pubKey)) of one element")
+	} else {
+		c.Bad(rule, key, c.Pos(f.Pos()), "a public key is persisted under a (branch, index) that is not its own")
 	}
 }
